@@ -258,6 +258,12 @@ class World:
             sw.secret_alnum_string = saved_sw
             errs = loop.finish()
         self.last_loop_errors = errs
+        from vf.minisql import lexer as _lx
+
+        if _lx.GAPS:
+            gaps = list(_lx.GAPS)
+            del _lx.GAPS[:]
+            raise RuntimeError(f'minisql harness gap during operation (possibly swallowed by service code): {gaps[:3]}')
         if exc is not None:
             raise exc
         return res
@@ -270,6 +276,7 @@ class World:
         data, now, st = snap
         self.mdb.store.restore_data(data)
         self.mdb.writer = None
+        self.mdb.locks.clear()
         self.now_ms = now
         self._spec_tokens = st
         self.client_session.calls.clear()
